@@ -46,6 +46,47 @@ DESC = {
  'C19-b': ("ParseTimestamp rejects times above MaxInt32", "a timestamp with bit 31 set (2038..2106)"),
  'C20-a': ("randomPoints uses `t <= thisHighStartTime` for the plain random branch", "a generation instant at which the finer archive's oldest slot lands exactly on a coarser slot boundary"),
  'C20-b': ("generate's final Sync moved inside the `if c.Fill` block", "generate -fill=false"),
+ # ---- round 2
+ 'C01-a-r2': ("intervalForWrite computed as t.Add(-(Duration(t) % step)) ('timestamps are never negative')", "t >= 2^31 (2038+) and a step that does not divide 2^32; the read-side interval() is untouched"),
+ 'C01-b-r2': ("archiveUpdateMany aligns r.filterPoints(points, now): batch points dated after now are dropped", "a batch containing a point later than now, then a clock advance or a fetch of the displaced interval"),
+ 'C02-a-r2': ("propagate skips a coarser slot whose interval is at or before now-retention of that archive", "a coarser ring barely longer than the finer one and an old-but-accepted point"),
+ 'C02-b-r2': ("xFilesFactor gate moved to a helper and rewritten as float32(known) >= xff*float32(total)", "specific (ratio, xff, known) combinations at the boundary where the product rounds up"),
+ 'C03-a-r2': ("extractPoints is given r.intervalForWrite(now) instead of now", "step > 1 s, now off a step boundary, a point just past the retention boundary"),
+ 'C03-b-r2': ("sort.Stable only when archiveID == best", "named archive, non-ascending batch, a stale point after a fresh one"),
+ 'C04-a-r2': ("future test uses latest = r.intervalForWrite(now): from > latest returns nil", "step > 1 s, now not step-aligned, from inside the newest open slot"),
+ 'C04-b-r2': ("fetchRawPoints returns points[:i]", "a written archive whose stored base point is not step-aligned and a window straddling it"),
+ 'C05-a-r2': ("Close flushes while a new headerUnwritten flag is set (created, never synced)", "a handle from Create abandoned before its first Sync"),
+ 'C05-b-r2': ("updateFileDataWithPointsList ends with return db.Sync()", "existing destination, differences to copy, and a text-out failure beyond the bufio buffer"),
+ 'C06-a-r2': ("clearOldPoints compares with < instead of !=", "a slot label newer than the window expects (future-dated point or clock stepped back), read by both readers"),
+ 'C06-b-r2': ("create-time Sync removed from the shared helper; only copy's early return syncs, sum-copy's does not", "sum-copy into a missing destination with nothing to copy"),
+ 'C07-a-r2': ("ParseDuration's pre-multiplication overflow check removed", "a product of 2^32 or more that wraps to a small positive value (1s:7102w)"),
+ 'C07-b-r2': ("validateAggregationMethod delegates to IsAAggregationMethod (accepts mix, percentile)", "method 7 or 8 through NewHeader/Create/TakeFrom/Open"),
+ 'C08-a-r2': ("updateFileDataWithPointsList loses its now parameter and passes 0 (library clock) to UpdatePointsForArchive", "the wall clock crosses a step boundary between read and write and the window reaches the retention edge"),
+ 'C08-b-r2': ("archiveUpdateMany skips NaN points", "-copy-nan and a source hole over a slot where the destination has a value"),
+ 'C09-a-r2': ("withTextOutWriter calls finish() only when the body returned nil", "-text-out to a file and a difference verdict (ErrDiffFound)"),
+ 'C09-b-r2': ("convertRemoteErrNotExist wraps the PathError with fmt.Errorf(%w)", "a URL base and a file missing on that side"),
+ 'C10-a-r2': ("setRespForNotExistErr returns a 404 httpError with a text body", "server mode and an item or file pattern that matches nothing"),
+ 'C10-b-r2': ("sum's layout loop compares neighbours i, i+1 for i in 1..n-2", "the odd file sorts first (or only two files), layouts differ in retention only, window inside the common retention"),
+ 'C11-a-r2': ("sumCopyItem passes item and builds the destination path from item instead of itemToRelDir(item)", "an item more than one directory level deep"),
+ 'C11-b-r2': ("openOrCreateCopyDestFile no longer syncs the header after Create", "destination absent and the sum NaN in every slot of the window"),
+ 'C12-a-r2': ("glob clients parse the response with strings.Fields via an extracted helper", "a matched file or item name containing a space or tab"),
+ 'C12-b-r2': ("sumWhisperFileRemote wraps the error with fmt.Errorf(%w)", "item glob succeeds, the per-item source pattern matches nothing, source is a URL"),
+ 'C13-a-r2': ("openAndLockFile split; Open reads Stat/header before taking the lock", "a second Open started while the first handle is open, first session modifies page 0"),
+ 'C13-b-r2': ("explicit closes replaced by one deferred close guarded by a shadowed err", "any failure after the descriptor is obtained, then another access before a GC cycle"),
+ 'C14-a-r2': ("Points.TakeFrom returns early for count == 0 before consuming the count", "an empty list followed by more data"),
+ 'C14-b-r2': ("TimeSeries.TakeFrom loses its leading 12-byte guard", "a series message cut inside its fixed part"),
+ 'C15-a-r2': ("validateAggregationMethod delegates to IsAAggregationMethod", "method field 7 or 8, two archives, a propagating update"),
+ 'C15-b-r2': ("validate ranges over aa[:len(aa)-1]: the last (or only) archive is not validated on its own", "a bad step/count in the last archive; step 0 needs a single-archive file"),
+ 'C16-a-r2': ("diff's glob loop assigns diffFound = err != nil on every iteration", "glob of at least two files, the bad file not last, the last file equal"),
+ 'C16-b-r2': ("openOrCreateCopyDestFile no longer syncs the header after Create", "destination absent and nothing to copy"),
+ 'C17-a-r2': ("wrapHandler's hErr variable hoisted out of the per-request closure", "two failing requests in flight on the same endpoint (race detector)"),
+ 'C17-b-r2': ("sum worker assigns to the enclosing function's err (= instead of :=)", "two or more files (race detector); visible wrong result needs an unreadable file and a particular interleaving"),
+ 'C18-a-r2': ("filterPointsByTimeRange breaks out of its loop at the first slot newer than until", "a wrapped archive and an explicit -until older than slot 0's time"),
+ 'C18-b-r2': ("Value.String gets an integer fast path through int64", "a stored value that is +-Inf or has magnitude >= 2^63"),
+ 'C19-a-r2': ("leadingInt accumulates in int64 with one range check after the loop", "a numeral of 20+ digits whose value mod 2^64 lies in [1, 2^31-1]"),
+ 'C19-b-r2': ("TimestampFromStdTime clamps to [0, MaxInt32]", "a time at or after 2038-01-19T03:14:08Z"),
+ 'C20-a-r2': ("generate's final Sync moved inside if c.Fill", "generate -fill=false"),
+ 'C20-b-r2': ("Timestamp.Truncate implemented with time.Time.Truncate (grid relative to year 1)", "a layout containing a step that does not divide 719162 days (1w, 3d, 7s)"),
 }
 
 def main():
